@@ -135,30 +135,37 @@ Definition encode_label (l : xlabel) : list N :=
 Definition try_step (P : progs) (s : xstate) (l : xlabel) : option xstate :=
   if allowed s l then xstep P s l else None.
 
-Fixpoint run_labels (P : progs) (s : xstate) (ls : list (list N)) : xstate * list (list N) :=
+(** [fuel] bounds the number of ACCEPTED labels: views are lists that grow with every join *)
+Fixpoint run_labels (P : progs) (fuel : nat) (s : xstate) (ls : list (list N)) : xstate * list (list N) :=
   match ls with
   | [] => (s, [])
   | raw :: r =>
-    match label_of raw with
-    | None => run_labels P s r
-    | Some l0 =>
-      let l := resolve s l0 in
-      match try_step P s l with
-      | None => run_labels P s r
-      | Some s' =>
-        let '(c, op, o, old) := step_class s l in
-        let fin := match l with XStep t _ => bN (finished s' t) | _ => 0%N end in
-        let '(s2, obs) := run_labels P s' r in
-        (s2, (encode_label l ++ [c; fin; op; o; old]) :: obs)
+    match fuel with
+    | O => (s, [])
+    | S fuel' =>
+      match label_of raw with
+      | None => run_labels P fuel s r
+      | Some l0 =>
+        let l := resolve s l0 in
+        match try_step P s l with
+        | None => run_labels P fuel s r
+        | Some s' =>
+          let '(c, op, o, old) := step_class s l in
+          let fin := match l with XStep t _ => bN (finished s' t) | _ => 0%N end in
+          let '(s2, obs) := run_labels P fuel' s' r in
+          (s2, (encode_label l ++ [c; fin; op; o; old]) :: obs)
+        end
       end
     end
   end.
+
+Definition max_labels : nat := 48.
 
 Definition run_sched (case : list (list N)) : list (list N) :=
   match case with
   | (199%N :: n :: _) :: (200%N :: d) :: (201%N :: u) :: (202%N :: c) :: labels =>
     let P := mkProgs (prog_of d) (prog_of u) (prog_of c) in
-    let '(s, obs) := run_labels P xinit labels in
+    let '(s, obs) := run_labels P max_labels xinit labels in
     obs ++ [[900%N; bN (xdestroyed s); bN (xfreed s); bN (xraced s); bN (leaked s)] ++ summary s (N.to_nat n) 0; [901%N; 0%N; 0%N; 0%N; 0%N]]
   | _ => [[999%N]]
   end.
@@ -170,22 +177,27 @@ Proof. reflexivity. Qed.
 
 (** every label that [run_labels] accepts is a step of the machine: the final state is the one [xexec] reaches on the
     accepted labels, so the theorems of ConcXProofs about all schedules cover every schedule this stream can run *)
-Fixpoint accepted (P : progs) (s : xstate) (ls : list (list N)) : list xlabel :=
+Fixpoint accepted (P : progs) (fuel : nat) (s : xstate) (ls : list (list N)) : list xlabel :=
   match ls with
   | [] => []
   | raw :: r =>
-    match label_of raw with
-    | None => accepted P s r
-    | Some l0 => match try_step P s (resolve s l0) with None => accepted P s r | Some s' => resolve s l0 :: accepted P s' r end
+    match fuel with
+    | O => []
+    | S fuel' =>
+      match label_of raw with
+      | None => accepted P fuel s r
+      | Some l0 => match try_step P s (resolve s l0) with None => accepted P fuel s r | Some s' => resolve s l0 :: accepted P fuel' s' r end
+      end
     end
   end.
 
-Lemma run_labels_is_xexec P : forall ls s, xexec P s (accepted P s ls) = Some (fst (run_labels P s ls)).
+Lemma run_labels_is_xexec P : forall ls fuel s, xexec P s (accepted P fuel s ls) = Some (fst (run_labels P fuel s ls)).
 Proof.
-  induction ls as [|raw r IH]; intros s; cbn [accepted run_labels xexec fst]; [reflexivity|].
+  induction ls as [|raw r IH]; intros fuel s; cbn [accepted run_labels xexec fst]; [reflexivity|].
+  destruct fuel as [|fuel']; [reflexivity|].
   destruct (label_of raw) as [l0|]; [|apply IH].
   remember (resolve s l0) as l eqn:Hl. clear Hl.
   destruct (try_step P s l) as [s'|] eqn:E; [|apply IH].
-  cbn [xexec]. unfold try_step in E. destruct (allowed s l); [|discriminate]. rewrite E. specialize (IH s').
-  destruct (step_class s l) as [[[c op] o] old]. destruct (run_labels P s' r) as [s2 obs]. exact IH.
+  cbn [xexec]. unfold try_step in E. destruct (allowed s l); [|discriminate]. rewrite E. specialize (IH fuel' s').
+  destruct (step_class s l) as [[[c op] o] old]. destruct (run_labels P fuel' s' r) as [s2 obs]. exact IH.
 Qed.
